@@ -7,6 +7,7 @@ package vh
 import (
 	"encoding/json"
 	"fmt"
+	"io"
 	"os"
 	"strconv"
 )
@@ -220,4 +221,33 @@ func NewFailingWriter(k int) *FailingWriter {
 		return &FailingWriter{K: k, Transient: true}
 	}
 	return &FailingWriter{K: k}
+}
+
+// MemFile returns an *os.File holding exactly data (natively: an unlinked temporary file; symbolically: an
+// in-memory model of Seek / Read / Stat().Size() / Close).
+func MemFile(data []byte) *os.File {
+	f, err := os.CreateTemp("", "vh-memfile-*")
+	if err != nil {
+		panic(err)
+	}
+	os.Remove(f.Name())
+	if _, err := f.Write(data); err != nil {
+		panic(err)
+	}
+	if _, err := f.Seek(0, 0); err != nil {
+		panic(err)
+	}
+	return f
+}
+
+// MemFileBytes returns everything written to / contained in f (natively: reads the file back).
+func MemFileBytes(f *os.File) []byte {
+	if _, err := f.Seek(0, 0); err != nil {
+		panic(err)
+	}
+	b, err := io.ReadAll(f)
+	if err != nil {
+		panic(err)
+	}
+	return b
 }
